@@ -41,7 +41,10 @@ let () =
       let ops = match rest with ":" :: o -> o | _ -> failwith "no ops" in
       let parsed = Array.of_list (List.map (fun s ->
         match String.split_on_char ',' s with
-        | [k; sub; sc] -> (is_manifest_kind (nat_of_int (int_of_string k)), (if sub = "-" then None else Some (nat_of_int (int_of_string sub))), List.map nat_of_int (ints_of '.' sc))
+        | [k; sub; sc] ->
+          let kind = nat_of_int (int_of_string k) in
+          (* the subject field is read only for the media types of manifestutil.Subject's switch *)
+          (is_manifest_kind kind, (if sub = "-" || not (kind_has_subject kind) then None else Some (nat_of_int (int_of_string sub))), List.map nat_of_int (ints_of '.' sc))
         | _ -> failwith "node") nodes) in
       let get k = let i = int_of_nat k in if i < n then Some parsed.(i) else None in
       let succ k = match get k with Some (_, _, s) -> s | None -> [] in
